@@ -144,7 +144,6 @@ fn function_return_contract() {
     let (ip1, sp1, pc1, same_code) = (vm.ip, vm.sp, vm.pop_count, vm.instructions.same(&caller_code));
     drop(vm);
     assert!(t.stack_frames.len() == older + 1, "a return removes exactly one frame");
-    assert!(unsafe { MARKS_CLOSED } == 1);
     if outermost {
         assert!(matches!(r, Some(Ok(SteelVal::IntV(x))) if x == want), "the value handed back is not the function's value");
         assert!(t.stack.len() == fsp && ip1 == ip0 + 1 && sp1 == 0 && pc1 == 0);
